@@ -144,6 +144,10 @@ def run_prop(chk: Check, prop: str) -> int:
     for c in txhist.nesting_cases(None if chk.thorough else chk.rng):
         cases.append(("nesting", c))
         nnest += 1
+    ndef = 0
+    for c in txhist.default_cases(None if chk.thorough else chk.rng):
+        cases.append(("caller-default", c))
+        ndef += 1
     for i in range(n):
         cases.append((f"gen:{i}", txhist.gen_case(chk.rng, i)))
     nexh = 0
@@ -197,6 +201,17 @@ def run_prop(chk: Check, prop: str) -> int:
         report(chk, case, prop, origin)
     if proof is not None:
         chk.proof_broken(proof, found > 0)
+    chk.coverage.update({
+        "caller_default_cases": ndef,
+        "caller_default_rule": "reads with a caller-supplied default (`get(k, default=d)`, `get_many(..., default=d)`, d a value of the alphabet "
+                               "- None, a small int, the identical token object - instead of the harness's private sentinel): about half of the "
+                               "generated reads, inside and outside blocks, preferring the value just written to the key; plus the enumerated "
+                               "sub-space: key 0 initially absent / None / 0 / 1 / a token x one earlier command of the transaction on it "
+                               "(none, set always|xx|nx and set_many with each of the 4 values, incr, expire, delete, delete_many: 21) x one read "
+                               "(get, get_many in two key orders) x 5 defaults (private sentinel + the 4 values), repeated after commit; quick "
+                               "tier: one mode per case drawn from VERIF_SEED, thorough tier: all three modes (exhaustive over this space). "
+                               "Observable with default d: the stored value if there is one, else d (per key, by position)",
+    })
     chk.coverage.update({
         "evaluations": evaluations,
         "distinct_nontrivial": len(distinct),
